@@ -1053,6 +1053,60 @@ def probe_fingerprint_startup_files(ctx, tmp):
 
 
 
+def probe_reinstantiated_recipe(ctx, tmp, replay_case=None):
+    """one recipe reached several times in one graph calculation: first with a declared variable unset, later with
+    the variable set by the parent (depends[].environment), in either order. Every instance must run with exactly
+    what its own path declares (seed C13-3: a package instance reused across paths ran without the variable)."""
+    rng = ctx.rng
+    if replay_case is not None:
+        c = replay_case
+    else:
+        c = {"kind": "reinstantiated-recipe", "v1": "val-" + gen_value(rng, 6).replace("\x00", "").replace("\n", " "),
+             "v2": "other " + gen_value(rng, 4).replace("\x00", "").replace("\n", " "),
+             "where": rng.choice(["buildVars", "packageVars", "checkoutVars"]),
+             "order": rng.choice([["a", "b", "c"], ["b", "a", "c"], ["c", "a", "b"], ["a", "c", "b"]]),
+             "default": rng.random() < 0.3}
+    pd = os.path.join(tmp, "reinst")
+    shutil.rmtree(pd, ignore_errors=True)
+    dump = 'env -0 > env-%s.bin\n'
+    shr = {c["where"]: ["SV"], "buildScript": dump % "build", "packageScript": dump % "package"}
+    if c["where"] == "checkoutVars":
+        shr["checkoutDeterministic"] = True
+        shr["checkoutScript"] = dump % "checkout"
+    mk = lambda nm, env: {"depends": [{"name": "shr", "environment": env} if env else "shr"], "buildScript": "true\n", "packageScript": "true\n"}
+    recipes = {"top": {"root": True, "depends": list(c["order"]), "buildScript": "true\n", "packageScript": "true\n"},
+               "a": mk("a", None), "b": mk("b", {"SV": proj.lit(c["v1"])}), "c": mk("c", {"SV": proj.lit(c["v2"])}), "shr": shr}
+    default = {"environment": {"SV": "from-default"}} if c["default"] else {}
+    desc = {"recipes": recipes, "classes": {}, "config": {"bobMinimumVersion": "0.25"}, "default": default}
+    os.makedirs(pd)
+    proj.write_project(desc, pd)
+    rc, out = run_bob_stdin(pd, ["dev", "top", "-j", "1", "--no-audit", "--no-logfiles"], proj.bob_env({}), subprocess.DEVNULL)
+    ctx.evaluated()
+    replay = dict(c, desc=desc)
+    if rc != 0:
+        ctx.violation("build-of-valid-project-failed", "bob dev top returned %d: %s" % (rc, out[-400:]), replay)
+        return
+    exp = {"a": "from-default" if c["default"] else None, "b": c["v1"], "c": c["v2"]}
+    kinds = {"checkoutVars": [("src", "checkout"), ("build", "build"), ("dist", "package")],
+             "buildVars": [("build", "build"), ("dist", "package")], "packageVars": [("dist", "package")]}[c["where"]]
+    for via, want in sorted(exp.items()):
+        for lab, kd in kinds:
+            rc, out = run_bob_stdin(pd, ["query-path", "-f", "{%s}" % lab, "top/%s/shr" % via], proj.bob_env({}), subprocess.DEVNULL)
+            ws = out.strip().split("\n")[-1] if rc == 0 else ""
+            f = os.path.join(pd, ws, "env-%s.bin" % kd)
+            ctx.count("reinstantiated-recipe:%s:%s" % (c["where"], kd))
+            if rc != 0 or not ws or not os.path.exists(f):
+                ctx.violation("step-did-not-dump", "top/%s/shr %s: no dump (%s)" % (via, kd, out[-200:]), replay)
+                continue
+            seen = dict(x.split("=", 1) for x in parse_nul(open(f, "rb").read().decode("utf-8", "surrogateescape")) if "=" in x)
+            if seen.get("SV") != want:
+                ctx.violation("declared-variable-missing-in-step-env" if want is not None and "SV" not in seen else
+                              ("undeclared-variable-in-step-env" if want is None else "declared-value-differs-in-step-env"),
+                              "top/%s/shr %s step (recipe instantiated on three paths, order %r): SV arrives as %r, this path declares %r"
+                              % (via, kd, c["order"], seen.get("SV"), want), replay)
+    ctx.nontrivial(("reinstantiated-recipe", c["where"], tuple(c["order"]), c["default"]))
+
+
 def part_c(ctx, tmp):
     rng = ctx.rng
     t0 = _time.time()
@@ -1579,6 +1633,8 @@ def replay(ctx, tmp):
             ctx.violation("build-of-valid-project-failed", "replayed", c)
     elif kind == "fingerprint-stdin-socket":
         probe_fingerprint_startup_files(ctx, tmp)
+    elif kind == "reinstantiated-recipe":
+        probe_reinstantiated_recipe(ctx, tmp, replay_case={k: c[k] for k in ("kind", "v1", "v2", "where", "order", "default")})
     elif kind == "corpus-project":
         corpus_projects(ctx, tmp)
     elif kind == "name":
@@ -1626,6 +1682,8 @@ def run(ctx):
         if "c" in parts:
             corpus_projects(ctx, tmp)
             probe_fingerprint_startup_files(ctx, tmp)
+            for _ in range(ctx.n(3, 12)):
+                probe_reinstantiated_recipe(ctx, tmp)
             part_c(ctx, tmp)
         if "d" in parts:
             part_d(ctx, tmp)
